@@ -1,6 +1,7 @@
 package main
 
 import (
+	"reflect"
 	"bytes"
 	"encoding/json"
 	"fmt"
@@ -597,7 +598,13 @@ func execDecode(typ string, text []byte) {
 		if b2, err := json.Marshal(v); err == nil {
 			v2 := newOf(typ)
 			if json.Unmarshal(b2, v2) == nil {
-				o["again"], _ = valJ(v2)
+				aj, _ := valJ(v2)
+				o["again"] = aj
+				// compared here as well, on the Go values: the JSON written for the driver cannot carry a string
+				// that is not valid UTF-8 (it would arrive as U+FFFD and hide the difference)
+				if !reflect.DeepEqual(j, aj) {
+					o["againRawDiffers"] = true
+				}
 			}
 		}
 	}
@@ -606,6 +613,70 @@ func execDecode(typ string, text []byte) {
 		line["tree"] = tree
 	}
 	emit(line)
+}
+
+// execDecodeRaw: a text that is NOT valid UTF-8 (an invalid byte inside a JSON string).  encoding/json accepts such
+// texts and decodes the bad bytes as U+FFFD; whatever is accepted must still satisfy decode-encode-decode = decode,
+// compared on the Go values (the line written for the driver carries the text in hex).
+func execDecodeRaw(typ string, text []byte) {
+	o := M{}
+	var v any
+	var err error
+	p := recoverStr(func() {
+		if typ == "ParseClientMsg" {
+			var m mocrelay.ClientMsg
+			m, err = mocrelay.ParseClientMsg(text)
+			v = m
+		} else {
+			v = newOf(typ)
+			err = json.Unmarshal(text, v)
+		}
+	})
+	switch {
+	case p != "":
+		o["res"] = "panic"
+	case err != nil:
+		o["res"] = "error"
+	default:
+		o["res"] = "ok"
+		j, _ := valJ(v)
+		o["val"] = j
+		if b2, err := json.Marshal(v); err == nil {
+			v2 := newOf(typeOf(v))
+			if json.Unmarshal(b2, v2) == nil {
+				aj, _ := valJ(v2)
+				o["again"] = aj
+				if !reflect.DeepEqual(j, aj) {
+					o["againRawDiffers"] = true
+				}
+			} else {
+				o["againFails"] = true
+			}
+		}
+	}
+	emit(M{"op": "rawdec", "type": typ, "hex": fmt.Sprintf("%x", text), "out": o})
+}
+
+// badByteInString replaces one byte inside a JSON string of a well-formed text by a byte that is not valid UTF-8
+func badByteInString(r *Rng, b []byte) []byte {
+	var pos []int
+	in := false
+	for i := 0; i < len(b); i++ {
+		switch {
+		case b[i] == '\\' && in:
+			i++
+		case b[i] == '"':
+			in = !in
+		case in && b[i] < 0x80 && b[i] >= 0x20:
+			pos = append(pos, i)
+		}
+	}
+	if len(pos) == 0 {
+		return nil
+	}
+	c := append([]byte{}, b...)
+	c[pick(r, pos)] = pick(r, []byte{0xff, 0xc3, 0x80, 0xfe})
+	return c
 }
 
 func execRaw(typ string, b []byte) {
@@ -690,7 +761,7 @@ func normalPrefix(prefix, msg string) bool {
 
 func codecGen(r *Rng, n int, tier string) {
 	for i := 0; i < n; i++ {
-		switch r.Intn(10) {
+		switch r.Intn(11) {
 		case 0, 1, 2:
 			// well-formed client message with white space: must parse and be valid
 			m := wfClientMsg(r)
@@ -736,6 +807,22 @@ func codecGen(r *Rng, n int, tier string) {
 				if r.P(35) {
 					execDecode(typ, []byte(t))
 				}
+			}
+		case 10:
+			// an invalid byte inside a string of a well-formed message (subscription id, event id, content, tag, text)
+			var b []byte
+			var typ string
+			if r.Bool() {
+				m := wfClientMsg(r)
+				b, _ = json.Marshal(m)
+				typ = pick(r, []string{typeOf(m), "ParseClientMsg"})
+			} else {
+				m := wfServerMsg(r)
+				b, _ = json.Marshal(m)
+				typ = typeOf(m)
+			}
+			if c := badByteInString(r, b); c != nil {
+				execDecodeRaw(typ, c)
 			}
 		case 8:
 			// round trips of (not necessarily valid) values
@@ -801,6 +888,10 @@ func init() {
 					execParse([]byte(str(l["text"])), wf, str(l["mut"]))
 				case "decode":
 					execDecode(str(l["type"]), []byte(str(l["text"])))
+				case "rawdec":
+					if hb, err := hexDecodeStr(str(l["hex"])); err == nil {
+						execDecodeRaw(str(l["type"]), hb)
+					}
 				case "roundtrip":
 					v := newOf(str(l["type"]))
 					if json.Unmarshal([]byte(str(l["text"])), v) == nil {
@@ -814,4 +905,10 @@ func init() {
 			}
 		},
 	}
+}
+
+func hexDecodeStr(h string) ([]byte, error) {
+	b := make([]byte, len(h)/2)
+	_, err := fmt.Sscanf(h, "%x", &b)
+	return b, err
 }
